@@ -3,8 +3,12 @@ C07 — results never depend on basis-cache history (memory or disk).
 
 proofs : lean/PyAbel/Props/C07.lean (generic two-tier cache machine: invariant preserved by every operation, every
          answer right or an exception, for all finite histories; the five modules' rule sets are lawful) and
-         Props/C07Names.lean (cleanup masks match exactly their own method's file names; table regenerated from /repo)
-K      : seeded random histories (calls over each module's key lattice with/without basis_dir, cache_cleanup,
+         Props/C07Names.lean (cleanup masks match exactly their own method's file names; table regenerated from /repo);
+         Props/C07Rbasex.lean (rbasex's in-memory transform caches as a machine over the six module globals: every call
+         that returns, returns matrices made from the basis, mask and regularisation it names, after any history)
+K      : rbasex sessions (calls over bases x valid-radius masks x directions x regularisations incl. ones that raise,
+         cache_cleanup of each kind) on the real module vs that machine: outcome and all six globals after every step;
+         seeded random histories (calls over each module's key lattice with/without basis_dir, cache_cleanup,
          basis_dir_cleanup, file damage/removal) executed on the real get_bs_cached functions and on the Lean machine:
          outcome class, memory key and directory listing after every operation must agree
 S      : every returned basis/operator equals a freshly generated one; transform-level histories over the wide
@@ -610,6 +614,7 @@ def run(tier):
     regenerate_names(ck)
     ck.proofs("PyAbel.Props.C07")
     ck.proofs("PyAbel.Props.C07Names")
+    ck.proofs("PyAbel.Props.C07Rbasex")
     ok, log = ensure_driver()
     if ok:
         correspondence(ck, tier)
@@ -619,6 +624,8 @@ def run(tier):
     oracle_sequences(ck, tier)
     oracle_transform(ck, tier, deep or bool(ck.broken))
     oracle_cleanup_exact(ck)
+    from harness import rbxmachine
+    rbxmachine.run_sessions(ck, tier)              # rbasex's in-memory transform caches vs the Lean machine of C07Rbasex
     return ck.finish()
 
 
